@@ -35,9 +35,12 @@ TsU  == {U(IVR), U(EVR), U(UNK), UN(IVR), U(STUB)}
 
 CfgTs == {{}, {IVR}, {EVR}, {IVR, EVR}, {UNK}, {STUB}}
 
-Cfg(abs, tss, prom, access) ==
+(* maxpdu: the acceptor's OWN maximum PDU length (<<>> : left at the library default); *)
+(* it must not influence what is recorded for the requestor                       *)
+CfgM(abs, tss, prom, access, own) ==
   [abs |-> abs, tss |-> tss, promiscuous |-> prom, aet |-> "THIS-SCP", access |-> access,
-   appctx |-> AppCtx, pv |-> 1]
+   appctx |-> AppCtx, pv |-> 1, maxpdu |-> own]
+Cfg(abs, tss, prom, access) == CfgM(abs, tss, prom, access, <<>>)
 
 Cfgs == {Cfg({A, B}, t, p, "any") : t \in CfgTs, p \in BOOLEAN} \cup {Cfg({}, {}, TRUE, "any")}
 FewCfgs == {Cfg({A, B}, t, p, "any") : t \in {{}, {EVR}}, p \in BOOLEAN}
@@ -71,8 +74,10 @@ Header == {[kind |-> "header", cfg |-> Cfg({A, B}, {}, FALSE, acc),
 
 MaxLens == {<<>>, <<0, 0>>, <<0, 1>>, <<0, 1018>>, <<0, 4096>>, <<0, 16384>>, <<0, 32762>>, <<1, 0>>,
             <<32768, 0>>, <<65535, 65528>>, <<65535, 65529>>, <<65535, 65535>>}
-MaxLen == {[kind |-> "maxlen", cfg |-> Cfg({A, B}, {}, FALSE, "any"),
-            req |-> Req(1, AppCtx, "THIS-SCP", <<[id |-> 1, abs |-> U(A), tss |-> <<U(IVR)>>]>>, m)] : m \in MaxLens}
+OwnMax == {<<>>, <<0, 1018>>, <<0, 4096>>, <<0, 32762>>, <<16, 0>>, <<65535, 65528>>}
+MaxLen == {[kind |-> "maxlen", cfg |-> CfgM({A, B}, {}, FALSE, "any", own),
+            req |-> Req(1, AppCtx, "THIS-SCP", <<[id |-> 1, abs |-> U(A), tss |-> <<U(IVR)>>]>>, m)] :
+              m \in MaxLens, own \in OwnMax}
 
 Cases == CASE Mode = "single" -> Single [] Mode = "multi" -> Multi
            [] Mode = "header" -> Header [] Mode = "maxlen" -> MaxLen
